@@ -2,6 +2,7 @@
 
 CHECKS = {
     "C18": dict(
+        rule_more='The reading end may detach (Close) and attach again (Open) with unread data in the ring.',
         pkg="./ringbuffer", hdir="ringbuffer", test="TestVerif_C18",
         quick=dict(shards=16, checks=60000, timeout=300),
         thorough=dict(shards=16, checks=1200000, timeout=5400),
@@ -19,6 +20,7 @@ CHECKS = {
                      "a Read/ReadMultipleOf may legitimately return fewer bytes than are readable; only ReadAll must return all"],
     ),
     "C12": dict(
+        rule_more='(D) builds its group either with NewAbacoGroup or through a real AbacoSource (Configure with the options, then the sampling step of Start on a scripted packet producer), optionally with a ConfigureAbacoSource request for other options arriving - and being refused - while the sampling step runs.',
         pkg=".", hdir="root", test="TestVerif_C12(Demux|Roach)?", ids=["C12", "C12D", "C12R"],
         quick=dict(shards=16, checks=1, per_test={"TestVerif_C12": 150000, "TestVerif_C12Demux": 40000, "TestVerif_C12Roach": 12}, timeout=300),
         thorough=dict(shards=16, checks=1, per_test={"TestVerif_C12": 4000000, "TestVerif_C12Demux": 1000000, "TestVerif_C12Roach": 400}, timeout=5400),
@@ -43,6 +45,7 @@ CHECKS = {
         assumptions=["option sets are restricted to those real callers can construct", "1 LSB tolerance on the window absorbs floor vs. round of the bias"],
     ),
     "C13": dict(
+        rule_more='A third of the models reach the channel as a client sends them (base64 text through SourceControl.ConfigureProjectorsBasis), optionally replacing an earlier model (2.5 x the projectors with the same basis, everything negated, another number of bases), with projector entries of the order 1e-7 and square models (bases = samples).',
         pkg=".", hdir="root", test="TestVerif_C13",
         quick=dict(shards=16, checks=10000, timeout=300),
         thorough=dict(shards=16, checks=300000, timeout=5400),
@@ -79,6 +82,7 @@ CHECKS = {
         assumptions=["at most 6 messages are in flight per socket (below the PUB high-water mark of 100), so ZMQ itself never drops"],
     ),
     "C15": dict(
+        rule_more='The round trip also covers packets with an earlier life (SetTimestamp, ResetTimestamp, NewData, ClearData before the final data), packets cleared before encoding (header and timestamp only), 5-140 dimensions and timestamp rates 0 and 1e-3.',
         pkg="./packets", hdir="packets", test="TestVerif_C15(RT|RAW|SLOT)?", ids=["C15", "C15RT", "C15RAW", "C15SLOT"], custom="c15_fuzz",
         quick=dict(shards=16, checks=50000, timeout=300),
         thorough=dict(shards=16, checks=150000, timeout=5400, fuzz_seconds=100),
@@ -125,6 +129,7 @@ CHECKS = {
                      "sub-frame product frame*divisions+offset stays inside int64"],
     ),
     "C07": dict(
+        rule_more="(A) also with a periodic flush interval of 0.1-2 ms, so that periodic flushes fall between and into the operations; (B) a few cases per shard write LJH3 records as long as the writer's own buffer (32768/40000 samples) mixed with short ones.",
         pkg=".", hdir="root", test="TestVerif_C07[ABC]", ids=["C07A", "C07B", "C07C"],
         quick=dict(shards=16, checks=3000, timeout=600),
         thorough=dict(shards=16, checks=75000, timeout=5400),
@@ -166,6 +171,7 @@ CHECKS = {
         assumptions=["record lengths and edge-multi settings respect the documented validity rules", "decimation is never enabled in production code and is excluded"],
     ),
     "C02": dict(
+        rule_more='Also: sample rates whose period is no whole number of nanoseconds (the auto delay counts samples of the true rate); one channel may group-trigger a judged channel (its secondary records are not triggers of its own and must not change which of its own pulses are found).',
         pkg=".", hdir="root", test="TestVerif_C02", wal=True,
         quick=dict(shards=16, checks=12000, timeout=600),
         thorough=dict(shards=16, checks=240000, timeout=5400),
@@ -186,6 +192,7 @@ CHECKS = {
         assumptions=["no group triggers and no edge-multi in this check (C08/C09)", "contiguous frame numbering"],
     ),
     "C08": dict(
+        rule_more='A third of the cases compute the status reports (trigger state, group-trigger state, writing state) between blocks of the partitioned run, as every client request does.',
         pkg=".", hdir="root", test="TestVerif_C08", wal=True,
         quick=dict(shards=16, checks=15000, timeout=600),
         thorough=dict(shards=16, checks=300000, timeout=5400),
@@ -224,6 +231,7 @@ CHECKS = {
         assumptions=["no ConfigurePulseLengths or edge-multi inside these histories (covered by C01/C08)"],
     ),
     "C06": dict(
+        rule_more='An earlier run directory of the day may be deleted by hand between sessions (directory numbers with a hole): the next START must still write into a directory that did not exist.',
         pkg=".", hdir="root", test="TestVerif_C06", wal=True,
         quick=dict(shards=16, checks=3000, timeout=600),
         thorough=dict(shards=16, checks=36000, timeout=5400),
@@ -244,6 +252,7 @@ CHECKS = {
         assumptions=["projectors are only changed while writing is inactive", "unusable path = parent is a regular file (the sandbox runs as root, permission bits cannot make a path unusable)"],
     ),
     "C20": dict(
+        rule_more="Also: raw-data archive requests (1-1000 samples) being filled while blocks arrive, external-trigger counts given relative to the block's first frame (-30..+15 frames, i.e. also before it), and START requests rejected at the experiment-state file (over-long base path).",
         pkg=".", hdir="root", test="TestVerif_C20", wal=True,
         quick=dict(shards=16, checks=2500, timeout=600),
         thorough=dict(shards=16, checks=75000, timeout=5400),
@@ -263,6 +272,7 @@ CHECKS = {
         assumptions=["labels are non-empty and contain no newline (the RPC layer rejects empty labels)"],
     ),
     "C03": dict(
+        rule_more='Ring mode also uses rings only a few slots larger than the largest batch (reads wrap around the end) and rings that are no whole number of slots.',
         pkg=".", hdir="root", test="TestVerif_C03", wal=True,
         quick=dict(shards=16, checks=1500, timeout=900),
         thorough=dict(shards=16, checks=32000, timeout=5400),
@@ -286,6 +296,7 @@ CHECKS = {
         assumptions=["packets of one group arrive in sequence order", "equal frames per packet in all groups", "sequence numbers do not wrap around 2^32 within a case"],
     ),
     "C04": dict(
+        rule_more='The active card has number 0-3, with or without an idle card 0 installed.',
         pkg=".", hdir="root", test="TestVerif_C04", wal=True,
         also=[dict(alias="lancero", pkg="./lancero", hdir="lancero", test="TestVerif_C04A", ids=["C04A"])],
         quick=dict(shards=48, checks=1, per_test={"TestVerif_C04": 40, "TestVerif_C04A": 1500}, timeout=900),
@@ -315,6 +326,7 @@ CHECKS = {
         assumptions=["4-byte word granularity of the stream and of gaps (DMA words)", "card device number 0", "the first 60 reads deliver at least 4 frames (StartRun gives up after 100 empty reads)"],
     ),
     "C19": dict(
+        rule_more='(R) also reads the stored channel-group report ($HOME/.dastard/channels.json) after every Start: valid JSON, equal to the groups of the STATUS message.',
         pkg=".", hdir="root", test="TestVerif_C19R?", ids=["C19", "C19R"], wal=True,
         quick=dict(shards=16, checks=1, per_test={"TestVerif_C19": 6000, "TestVerif_C19R": 25}, timeout=900),
         thorough=dict(shards=16, checks=1, per_test={"TestVerif_C19": 90000, "TestVerif_C19R": 800}, timeout=5400),
@@ -339,6 +351,7 @@ CHECKS = {
         assumptions=["Lancero cards have distinct device numbers (Configure rejects repeats)"],
     ),
     "C16": dict(
+        rule_more="After every injected crash the real setupViper() of cmd/dastard runs on the directory (a child process of that package's own test binary) before the configuration is read; (RPC) sessions may contain a request for all status sent while the updater has a backlog of 40-70 bulky stateless messages: every topic published so far must be sent again.",
         pkg=".", hdir="root", test="TestVerif_C16(Crash|RPC)?", ids=["C16", "C16CRASH", "C16RPC"], wal=True,
         aux_bins=[dict(alias="cmddastard", pkg="./cmd/dastard", hdir="cmddastard", env="VERIF_C16_MAINBIN")],
         env={"VERIF_NO_GLOBAL_CHANNELS": "1"},
@@ -392,11 +405,12 @@ CHECKS = {
                    "anywhere kills the shard and is reported from the write-ahead log; after every request a further data block must be processed within "
                    "8 s and the source must still run; the monitor must never see a request method and block processing active at the same time.",
         level_note="Requests are issued in-process on SourceControl's exported RPC methods, one at a time, exactly as the JSON-RPC server does for one "
-                   "connection after decoding (the TCP/JSON layer itself is the library's). The fire-and-forget state-label mode is excluded as the "
+                   "connection after decoding; the (W) harness sends raw JSON text over TCP to the real RunRPCServer. The fire-and-forget state-label mode is excluded as the "
                    "property says. A connection of a channel to itself and deletions of non-existent connections are documented no-ops and not judged.",
         assumptions=["one client: requests do not overlap each other", "no Stop while a Start call is executing"],
     ),
     "C10": dict(
+        rule_more='The scripted Lancero card refuses double starts/stops like the driver and may report an error when the collector is stopped at the end of the first run (the same card must start again); writing may be PAUSEd when the run ends; after a run that ended by itself and before any Stop call writing must already be stopped.',
         pkg=".", hdir="root", test="TestVerif_C10", wal=True,
         quick=dict(shards=32, checks=25, timeout=900),
         thorough=dict(shards=48, checks=1500, timeout=5400),
@@ -422,6 +436,7 @@ CHECKS = {
         assumptions=["Abaco clients call Configure before each Start (a finished run drops its packet producers, as in production)"],
     ),
     "C17": dict(
+        rule_more='Request workloads also contain the state-label request in its default fire-and-forget mode (only where it must succeed: running source, writing active) immediately followed by ReadComment.',
         pkg=".", hdir="root", test="TestVerif_C17", wal=True, race=True,
         env={"GORACE": "log_path={work}/race halt_on_error=0 exitcode=0 history_size=3", "VERIF_RACE_LOG": "{work}/race"},
         quick=dict(shards=32, checks=12, timeout=1200),
